@@ -12,7 +12,6 @@ VARIABLE s
 Dna == {65,67,71,84,82,89,83,87,75,77,66,68,72,86,78, 97,99,103,116,114,121,115,119,107,109,98,100,104,118,110, 45,46,42}
 Init == s \in UNION {[1..k -> Dna] : k \in 0..MaxLen}
 Next == UNCHANGED s
-Ungap(x) == SelectSeq(x, LAMBDA c : c # GAP)
 Obj(x) == [k |-> "align", al |-> NUCLEOTIDS, pol |-> 0, len |-> Len(x), rows |-> <<[n |-> <<97>>, s |-> x], [n |-> <<98>>, s |-> Rev(x)]>>]
 
 Involution   == RevCompS(RevCompS(s)) = s
